@@ -130,7 +130,10 @@ class NameDatabase:
         return name
 
     def __getitem__(self, value):
-        if isinstance(value, (int, float, str)):
+        if type(value) in (int, str) or (
+            type(value) is float and value == value and abs(value) != float("inf")
+        ):
+            # Only values whose repr evaluates back to them can be inlined
             return repr(value)
         if id(value) in self.names:
             return self.names[id(value)]
